@@ -5,7 +5,7 @@
    meaning, one of these proofs fails. *)
 From Coq Require Import NArith Arith List Bool Lia.
 From AV Require Import Generated.Table Spec.Utf8 Spec.Vt Spec.Sgr Spec.Io Model.Base Model.Imp Model.Utf8parse Model.Parser
-  Model.Strip Model.Wincon Model.Stream Model.WinconStream Generated.WinconStreamFn Generated.WinconFn.
+  Model.Strip Model.Wincon Model.Stream Model.WinconStream Generated.FmtFn Proofs.FmtGen Generated.WinconStreamFn Generated.WinconFn.
 Import ListNotations.
 Local Open Scope N_scope.
 
@@ -114,7 +114,10 @@ Qed.
 
 Lemma g_wc_write_fmt_eq raw s frags : wconv_u (g_wc_write_fmt raw s frags) = wc_write_fmt s frags raw.
 Proof.
-  unfold g_wc_write_fmt. revert raw s.
+  unfold g_wc_write_fmt. cbv zeta.
+  (* Adapter::new(closure).write_fmt(args), TRANSLATED (Generated/FmtFn.v), is the hand model's fmt_adapter_write_fmt *)
+  rewrite (adapter_run _ _ (fun st r => let '(raw3, state3) := st in Some (raw3, state3, r))).
+  revert raw s.
   induction frags as [|fr rest IH]; intros raw s; cbn [fmt_adapter_write_fmt wc_write_fmt]; [reflexivity|].
   rewrite <- g_wc_write_all_eq.
   destruct (g_wc_write_all raw s fr) as [[[c1 s1] r]|]; cbn [wconv_u]; [|reflexivity].
@@ -123,12 +126,25 @@ Proof.
 Qed.
 
 (* ---- impl io::Write for WinconStream ---------------------------------------------------------- *)
+(* write_vectored: `bufs.iter().find(|b| !b.is_empty()).map(|b| &**b).unwrap_or(&[][..])`, TRANSLATED, is first_nonempty *)
+Lemma wc_find_nonempty_is_first_nonempty (bufs : list (list N)) :
+  opt_unwrap_or (option_map (fun b => b) (find (fun b => negb (is_empty b)) bufs)) [] = first_nonempty bufs.
+Proof.
+  induction bufs as [|b rest IH]; [reflexivity|].
+  destruct b as [|c b]; cbn [find is_empty negb first_nonempty]; [exact IH|reflexivity].
+Qed.
+
+Lemma g_wcs_write_vectored_first x bufs : g_wcs_write_vectored x bufs = g_wcs_write x (first_nonempty bufs).
+Proof.
+  unfold g_wcs_write_vectored. cbv zeta. rewrite wc_find_nonempty_is_first_nonempty.
+  destruct (g_wcs_write x (first_nonempty bufs)) as [[x1 r]|]; reflexivity.
+Qed.
+
 Definition g_wcs_op (x : wcstream) (o : sop) : option (wcstream * sres) :=
   match o with
   | OWrite buf => '(x1, r) <- g_wcs_write x buf ;; Some (x1, sres_of_n r)
   | OWriteAll buf => '(x1, r) <- g_wcs_write_all x buf ;; Some (x1, sres_of_unit r)
-  (* write_vectored is hand-modelled (token-pinned): the first non-empty buffer, then the TRANSLATED write *)
-  | OWriteVectored bufs => '(x1, r) <- g_wcs_write x (first_nonempty bufs) ;; Some (x1, sres_of_n r)
+  | OWriteVectored bufs => '(x1, r) <- g_wcs_write_vectored x bufs ;; Some (x1, sres_of_n r)
   | OWriteFmt frags => '(x1, r) <- g_wcs_write_fmt x frags ;; Some (x1, sres_of_unit r)
   | OFlush => let '(x1, r) := g_wcs_flush x in Some (x1, sres_of_unit r)
   end.
@@ -151,7 +167,7 @@ Proof.
     destruct (g_wc_write (wcs_raw x) (wcs_state x) buf) as [[[? ?] ?]|]; reflexivity.
   - rewrite <- g_wc_write_all_eq. unfold g_wcs_write_all.
     destruct (g_wc_write_all (wcs_raw x) (wcs_state x) buf) as [[[? ?] ?]|]; reflexivity.
-  - rewrite <- g_wc_write_eq. unfold g_wcs_write.
+  - rewrite g_wcs_write_vectored_first. rewrite <- g_wc_write_eq. unfold g_wcs_write.
     destruct (g_wc_write (wcs_raw x) (wcs_state x) (first_nonempty bufs)) as [[[? ?] ?]|]; reflexivity.
   - rewrite <- g_wc_write_fmt_eq. unfold g_wcs_write_fmt.
     destruct (g_wc_write_fmt (wcs_raw x) (wcs_state x) frags) as [[[? ?] ?]|]; reflexivity.
